@@ -12,6 +12,11 @@ CHECKS = {
         technique="runtime reference-model monitor: replies of the real evaluator vs independent exact (Fraction) evaluation of the re-parsed query text",
         text="Every generated pure-number query (bounded-exhaustive small texts over a boundary alphabet plus seeded random trees with operands up to 4096 bits) is evaluated by the real library and judged against an independent exact evaluator; undefined results must be errors. Holds on the executions produced, not beyond.",
         note="Trusts Python int/Fraction, the reference grammar as calibrated in DESIGN.md, and the probe's faithful transcription of raw_value; exponents/shift counts limited to |n|<=64 and results to 2^16 bits."),
+    "C02": dict(
+        category="exploration", design_ref="DESIGN.md §2 C02",
+        technique="runtime reference-model monitor: dimensionality of every numeric reply vs an independent exponent-vector algebra over the re-parsed query; zero-exponent scan of every reply",
+        text="Random expression trees over all operators and the 20 functions with leaves drawn round-robin from every database unit (random prefixes, plurals, coefficients, powers incl. 0), quoted ad-hoc base units and numbers; the reply must carry exactly the algebra's dimensionality, must be an error where the algebra refuses, and may never mention a base unit with exponent zero.",
+        note="exp/ln/log/hyperbolic functions of dimensioned arguments are unspecified by the statement (reference abstains); where an error-gating value is a float either outcome is accepted."),
     "C03": dict(
         category="exploration", design_ref="DESIGN.md §2 C03",
         technique="runtime reference-model monitor: conversion replies of the real evaluator vs exact values from the dumped unit table; conformance-error suggestions checked by following them with an independent dimension algebra",
@@ -32,6 +37,11 @@ CHECKS = {
         technique="runtime invariant monitor over the loaded registry: every stored definition re-evaluated by the real evaluator in its own context and by an independent evaluator; structural invariants; repeated loads compared byte for byte",
         text="Exhaustive over every entry of the bundled database and of the bundled+currency-snapshot overlay: clean load (no error, no printed diagnostic), stored value = own definition, dimensionalities made of base units, quantity/dimensionality bijection, alias chains, doc/category ownership, identical dumps across reloads.",
         note="The currency overlay is the repository's snapshot file, not live data; the Python second opinion abstains on float-valued and substance-valued definitions."),
+    "C09": dict(
+        category="exploration", design_ref="DESIGN.md §2 C09",
+        technique="runtime monitor over recorded replies: parts read from exact raw values, the four decomposition laws recomputed in exact arithmetic from the dumped unit values",
+        text="Seeded unit lists of 2..6 conformable units from every dimensionality class (descending/ascending/repeated/random order, both separators) with zero/tiny/huge/random/near-multiple values of both signs, and time values through the automatic year..second breakdown; exact sum, integral non-final parts, common sign and bounded remainders are checked, and non-conformable lists/values must be refused.",
+        note="Only positive exact-valued units are listed; printed per-entry numerals are judged by C06."),
     "C12": dict(
         category="exploration", design_ref="DESIGN.md §2 C12",
         technique="runtime history-invariant monitor: the same definition multiset loaded by the real loader in many orders and file splits; canonical registry dumps compared byte for byte",
